@@ -245,3 +245,26 @@ def lvRun [Add α] [Sub α] [Mul α] [Div α] [One α] [LogOps α] (T : Tables) 
     (st2, o :: os)
 
 end SciVerif.C05
+
+namespace SciVerif.C05
+
+/-! ## `UNIT_TYPES` as state: unit environments
+
+`UNIT_TYPES` is a module-level list that `UnitEnvironment` edits. The conversion model reads
+it from `Tables.unitTypes`; these two functions model the edits. -/
+
+/-- `UnitEnvironment.__init__`, conversion classes only: a class named by a custom unit's
+    `definition` that is not in `UNIT_TYPES` is inserted at the front and recorded in
+    `new_types`; a class already present is neither inserted nor recorded. -/
+def envOpenAux : List String → List String → List String → List String × List String
+  | types, rec, [] => (types, rec)
+  | types, rec, d :: ds =>
+    if types.contains d then envOpenAux types rec ds
+    else envOpenAux (d :: types) (rec ++ [d]) ds
+
+def envOpen (types defs : List String) : List String × List String := envOpenAux types [] defs
+
+/-- `UnitEnvironment.close`: `for utype in self.new_types: UNIT_TYPES.remove(utype)` -/
+def envClose (types rec : List String) : List String := rec.foldl (fun t d => t.erase d) types
+
+end SciVerif.C05
